@@ -331,6 +331,26 @@ Section Election.
     rewrite Ht in H1. congruence.
   Qed.
 
+  (* a granted vote is the voter's recorded vote as long as it stays in that term *)
+  Theorem grant_reflects_vote n t w c vl :
+    reachable V n -> In (Vote t w c vl) (msgs n) ->
+    t < term (nodes n w) \/ (term (nodes n w) = t /\ voted (nodes n w) = Some c).
+  Proof.
+    intros Hr Hin. destruct (inv1q_reachable n Hr) as (Hinv & _).
+    pose proof (i_vote_le n Hinv _ _ _ _ Hin) as Hle.
+    destruct (Nat.eq_dec (term (nodes n w)) t) as [E|E]; [|left; lia].
+    right. split; [exact E|]. eapply (i_vote_cur n Hinv); eauto.
+  Qed.
+
+  (* within a term a node never changes its vote *)
+  Theorem vote_stable_in_term n l n' w c :
+    step V n l n' -> voted (nodes n w) = Some c -> term (nodes n' w) = term (nodes n w) ->
+    voted (nodes n' w) = Some c.
+  Proof.
+    intros Hstep Hv. inv_step Hstep; simp_upd; intros Ht; auto; try lia.
+    match goal with H : _ \/ _ |- _ => destruct H as [Hn|Hs] end; congruence.
+  Qed.
+
   (* a leader always owns a quorum of votes of its term *)
   Theorem leader_has_vote_quorum n i :
     reachable V n -> role (nodes n i) = Leader ->
